@@ -115,6 +115,7 @@ func init() {
 			{"multimap-merge", "a multimap (map with slice values) that outlives the merge is merged into by appending to the list stored under a key, never by maps.Copy or a plain keyed store (only the last contribution for a key would survive)", func(c *Ctx) { ruleMultimapMerge(c, "pkg/core/statesync", "pkg/network/bqueue", "pkg/core/mpt") }},
 			{"record-kind", "every function that decodes a trie node record (from the store, from a proof, from a peer) refuses the child-only kinds - hash node and empty node - before it uses the node: an empty record panics, a hash-node record makes the loaded node point at itself", func(c *Ctx) { ruleRecordKind(c, "pkg/core/statesync", "pkg/core/mpt") }},
 			{"stage-gated-accessor", "every way from a P2P command handler to statesync.Module.BlockHeight - which panics until the MPT stage is complete - passes a branch on the module's stage that controls the onward call (one data-gated site tabled): a peer's message during the header or MPT stage must be ignored, not crash the node", ruleStageGatedAccessor},
+			{"ring-slot-index", "in the block queue, the element found in the ring slot computed for an index is compared with that same index (same base, same constant offset): a clean-up that is off by one never matches, the length leaks and the node stops asking for blocks", ruleRingSlotIndex},
 			{"lock-pairing", "in pkg/network/bqueue and pkg/core/statesync every mutex acquired is released on every exit (defer-aware, boolean-correlated; the hand-unlocked Blocking branch of Queue.Put included)", func(c *Ctx) { lockPairingPkgs(c, []string{"pkg/network/bqueue", "pkg/core/statesync"}, nil, 10) }},
 			{"lockset", "the block queue's ring/len/lastQ and the state-sync module's stage, sync point, heights, tries and node pool are read and written only while the owning mutex is held (write lock for writes), in methods every call site of which holds it, or in the tabled traversal callback", ruleLocksetSync},
 			{"stage-machine", "the state jump that ends a state synchronisation is a well-formed stage machine: markers name the next clause and are persisted with the stage, and everything the jump writes to the store is in or before the batch that removes the marker (a restart at any point resumes or finds the jump complete)", ruleStageMachine},
